@@ -957,3 +957,234 @@ def gen_clmem(src_dir):
         chain = 'if sel_ =? %s then gen_cl_mem_%s insn rdst rsrc mem_start else\n  %s' % (n, n, chain)
     out.append("Definition gen_cl_mem (sel_ : Z) (insn : insn) (rdst rsrc mem_start : Z) : claccess :=\n  %s.\n" % chain)
     return ''.join(out)
+
+
+# ------------------------------------------------------------------ src/jit.rs: the x86-64 encoders (byte emission)
+
+ENC_FNS = ['emit1', 'emit2', 'emit4', 'emit8', 'emit_modrm', 'emit_modrm_reg2reg', 'emit_modrm_and_displacement', 'emit_rex',
+           'emit_basic_rex', 'emit_push', 'emit_pop', 'emit_alu32', 'emit_alu32_imm32', 'emit_alu32_imm8', 'emit_alu64',
+           'emit_alu64_imm32', 'emit_alu64_imm8', 'emit_mov', 'emit_cmp_imm32', 'emit_cmp', 'emit_cmp32_imm32', 'emit_cmp32',
+           'emit_load', 'emit_load_imm', 'emit_store', 'emit_store_imm32', 'emit_direct_jcc', 'emit_call']
+RUST_TY = {'u8': 'U8', 'u16': 'U16', 'u32': 'U32', 'u64': 'U64', 'i8': 'I8', 'i16': 'I16', 'i32': 'I32', 'i64': 'I64', 'usize': 'USZ',
+           'isize': 'ISZ', 'OperandSize': 'U8'}
+TY_BYTES = {'u8': 1, 'u16': 2, 'u32': 4, 'u64': 8}
+
+
+def fn_params(sig):
+    """[(name, rust type)] after `self` and `mem`"""
+    txt = [t[1] for t in sig]
+    i = txt.index('(')
+    depth, cur, params = 0, [], []
+    for t in txt[i:]:
+        if t == '(':
+            depth += 1
+            if depth == 1:
+                continue
+        if t == ')':
+            depth -= 1
+            if depth == 0:
+                break
+        if t == ',' and depth == 1:
+            params.append(cur)
+            cur = []
+        else:
+            cur.append(t)
+    if cur:
+        params.append(cur)
+    out = []
+    for p in params:
+        if 'self' in p:
+            continue
+        name = p[p.index(':') - 1]
+        ty = p[-1]
+        out.append((name, ty))
+    return out
+
+
+def gen_jitenc(src_dir):
+    from rsemit import Emitter
+    from rsimp import ImpTr, coqname
+    env, _ = U.read_consts(src_dir)
+    toks = U.load(src_dir, 'jit.rs')
+    consts = dict(env)
+    for name, ty, e_, line in R.consts(toks):
+        try:
+            consts[name] = ('U8', U.eval_const(e_, {}))
+        except Unsupported:
+            pass
+    # enum OperandSize { S8 = 8, S16 = 16, .. } or plain: number the variants
+    variants = None
+    for i in range(len(toks) - 2):
+        if toks[i][1] == 'enum' and toks[i + 1][1] == 'OperandSize':
+            k = R.find_matching(toks, i + 2)
+            body = [t for t in toks[i + 3:k]]
+            variants = []
+            j = 0
+            while j < len(body):
+                if body[j][0] == 'id':
+                    nm = body[j][1]
+                    val = None
+                    if j + 2 < len(body) and body[j + 1][1] == '=':
+                        val = int(body[j + 2][1])
+                        j += 2
+                    variants.append((nm, val))
+                j += 1
+    if not variants:
+        raise Unsupported("enum OperandSize not found")
+    for idx, (nm, val) in enumerate(variants):
+        consts[nm] = ('U8', val if val is not None else idx)
+    out = [U.HDR % 'src/jit.rs (the x86-64 encoders emit_*: bytes appended to the code buffer)',
+           "From RbpfV Require Import X86Enc.\n\n",
+           "Definition %s.\n\n" % '. Definition '.join('%s : Z := %d' % (nm, consts[nm][1]) for nm, _ in variants)]
+    # pure helper
+    sig, body = R.parse_fn(toks, 'basix_rex_would_set_bits')
+    ps = fn_params(sig)
+    em = Emitter(consts, {n: (n, RUST_TY[t]) for n, t in ps})
+    if len(body[1]) != 1 or body[1][0][0] != 'tail':
+        raise Unsupported("basix_rex_would_set_bits is not a single expression")
+    t, ty = em.expr(body[1][0][1])
+    out.append("Definition gen_basix_rex_would_set_bits (%s : Z) : res bool :=\n  %s.\n\n"
+               % (' '.join(n for n, _ in ps), Emitter.wrap_binds(em.take_binds(), 'Ok %s' % t)))
+    for fn in ENC_FNS:
+        sig, body = R.parse_fn(toks, fn)
+        ps = [(n, t) for n, t in fn_params(sig) if n != 'mem']
+        for n, t in ps:
+            if t not in RUST_TY:
+                raise Unsupported("%s: parameter type %s" % (fn, t))
+        em = Emitter(consts, {n: (coqname(n), RUST_TY[t]) for n, t in ps})
+        orig = em.expr
+
+        def expr(e, expect=None, em=em, orig=orig):
+            k = e[0]
+            if k == 'call' and e[1][0] == 'path' and e[1][1] in em.closures:
+                cl = em.closures[e[1][1]]
+                mapping = {pat[1]: a for (pat, _), a in zip(cl[1], e[2])}
+
+                def subst(x):
+                    if isinstance(x, tuple):
+                        if len(x) >= 2 and x[0] == 'path' and x[1] in mapping:
+                            return ('paren', mapping[x[1]])
+                        return tuple(subst(y) for y in x)
+                    if isinstance(x, list):
+                        return [subst(y) for y in x]
+                    return x
+                b = subst(cl[2])
+                while b[0] == 'block' and len(b[1]) == 1 and b[1][0][0] == 'tail':
+                    b = b[1][0][1]
+                if b[0] == 'match':
+                    s, sty = em.expr(b[1])
+                    chain = None
+                    for pat, guard, body_, ln, attrs in reversed(b[2]):
+                        v, _ = em.expr(body_, 'U8')
+                        if pat[0] == 'pwild':
+                            chain = v
+                        elif pat[0] == 'pnum':
+                            chain = '(if %s =? %d then %s else %s)' % (s, pat[1], v, chain)
+                        else:
+                            raise Unsupported("closure pattern")
+                    return chain, 'U8'
+                return em.expr(b, expect)
+            if k == 'mcall' and e[2] == 'contains' and e[1][0] == 'paren' and e[1][1][0] == 'range':
+                x, ty = em.expr(e[3][0])
+                lo = em.const_value(e[1][1][2])
+                hi = em.const_value(e[1][1][3])
+                if lo is None or hi is None:
+                    raise Unsupported("range bounds")
+                cmp_hi = '<=?' if e[1][1][1] == '..=' else '<?'
+                return '((%s <=? %s) && (%s %s %s))' % ('(%d)' % lo if lo < 0 else lo, x, x, cmp_hi, hi), 'BOOL'
+            if k == 'mcall' and show(e[1]) == 'self' and e[2] == 'basix_rex_would_set_bits':
+                ts = [em.expr(a)[0] for a in e[3]]
+                return em.hoist('gen_basix_rex_would_set_bits %s' % ' '.join(ts)), 'BOOL'
+            if k == 'path' and e[1] == 'i32::MIN':
+                return '(-2147483648)', 'I32'
+            if k == 'path' and e[1] == 'i32::MAX':
+                return '2147483647', 'I32'
+            return orig(e, expect)
+        em.expr = expr
+
+        def hook(tr, st, k, mode, names, em=em):
+            if st[0] in ('stmt', 'tail'):
+                e = st[1]
+                if e[0] == 'mcall' and show(e[1]) == 'self' and e[2] in ENC_FNS and e[3] and show(e[3][0]) == 'mem':
+                    callee_sig, _ = R.parse_fn(toks, e[2])
+                    cps_ = [(n, t) for n, t in fn_params(callee_sig) if n != 'mem']
+                    ts = []
+                    for a, (n, t) in zip(e[3][1:], cps_):
+                        tt, _ = em.expr(a, RUST_TY[t])
+                        ts.append(tt)
+                    binds = em.take_binds()
+                    return Emitter.wrap_binds(binds, '(mem <- gen_%s mem %s ;; %s)' % (e[2], ' '.join(ts), k()))
+                if e[0] == 'macro' and e[1] == 'emit_bytes':
+                    groups = []
+                    cur = []
+                    for t in e[2]:
+                        if t[0] == 'op' and t[1] == ',':
+                            groups.append(cur)
+                            cur = []
+                        else:
+                            cur.append(t)
+                    groups.append(cur)
+                    if len(groups) != 3 or groups[0][0][1] != 'mem' or groups[2][0][1] not in TY_BYTES:
+                        raise Unsupported("emit_bytes! arguments")
+                    data = R.Parser(groups[1] + [('eof', '', None, -1)]).expr()
+                    tt, _ = em.expr(data)
+                    binds = em.take_binds()
+                    return Emitter.wrap_binds(binds, '(let mem := emit_le mem %d %s in %s)' % (TY_BYTES[groups[2][0][1]], tt, k()))
+                if e[0] == 'macro' and e[1] in ('assert_eq', 'assert'):
+                    groups = []
+                    cur = []
+                    depth = 0
+                    for t in e[2]:
+                        if t[0] == 'op' and t[1] in '([':
+                            depth += 1
+                        if t[0] == 'op' and t[1] in ')]':
+                            depth -= 1
+                        if t[0] == 'op' and t[1] == ',' and depth == 0:
+                            groups.append(cur)
+                            cur = []
+                        else:
+                            cur.append(t)
+                    groups.append(cur)
+                    asts = [R.Parser(g + [('eof', '', None, -1)]).expr() for g in groups]
+                    if e[1] == 'assert_eq':
+                        cond = ('bin', '==', asts[0], asts[1], e[3])
+                    else:
+                        cond = asts[0]
+                    c, _ = em.expr(cond)
+                    binds = em.take_binds()
+                    return Emitter.wrap_binds(binds, '(if %s then %s else Panic 0)' % (c, k()))
+            if st[0] == 'let' and st[1][0] == 'ptuple' and st[3] is not None and st[3][0] == 'match':
+                # let (a, b, c) = match x { P => (..), .. }  ->  one match per component
+                names_ = [p[1] for p in st[1][1]]
+                m = st[3]
+                new = []
+                for idx, nm in enumerate(names_):
+                    arms = []
+                    for pat, guard, body_, ln, attrs in m[2]:
+                        if body_[0] != 'tuple' or len(body_[1]) != len(names_):
+                            raise Unsupported("tuple-valued match arm")
+                        arms.append((pat, guard, body_[1][idx], ln, attrs))
+                    new.append(('let', ('ppath', nm), None, ('match', m[1], arms), st[4], [], None))
+                return tr.stmts(new, 'plain', [], False).replace('Ok tt', k()) if False else _seq(tr, new, k)
+            return None
+
+        def _seq(tr, lets, k):
+            if not lets:
+                return k()
+            return tr.let_stmt(lets[0], lambda: _seq(tr, lets[1:], k))
+        tr = ImpTr(em, ['mem'], stmt_hook=hook)
+        em.locals['mem'] = ('mem', 'BYTES')
+
+        def mutating_call(e):
+            if e[0] == 'mcall' and show(e[1]) == 'self' and e[2] in ENC_FNS:
+                return ['mem']
+            return []
+        tr.mutating_call = mutating_call
+
+        def finish(mode, names, tr=tr):
+            return 'Ok mem'
+        tr.finish = finish
+        term = tr.block(body, 'plain', ['mem'])
+        out.append("Definition gen_%s (mem : list Z) %s: res (list Z) :=\n  %s.\n\n"
+                   % (fn, ''.join('(%s : Z) ' % coqname(n) for n, _ in ps), term))
+    return ''.join(out)
